@@ -309,6 +309,12 @@ theorem trim_excludes_id (r1 : Repo) (hf : ForestOK r1) (hi : IdOK r1) (id bi : 
       obtain ⟨hxe', _⟩ := hi.uniq x (hsub x hx) bi hbim k _ y d0 hy hd0' (by rw [heq, hid0])
       exact hxe hxe'
 
+theorem idOK_of_frame' (r r' : Repo) (hi : IdOK r) (ha : r'.arena = r.arena) (hb : r'.branches = r.branches) : IdOK r' := by
+  have hbr : ∀ x, r'.br x = r.br x := by intro x; unfold Repo.br; rw [ha]
+  refine ⟨?_, ?_⟩
+  · intro bi hbi i d hd; rw [hbr] at hd ⊢; exact hi.complete bi (hb ▸ hbi) i d hd
+  · intro bi hbi bj hbj i j d e hd he; rw [hbr] at hd he; exact hi.uniq bi (hb ▸ hbi) bj (hb ▸ hbj) i j d e hd he
+
 /-- marking keeps the identities, whatever the outcome. -/
 theorem idOK_markInvalid (r : Repo) (hf : ForestOK r) (hi : IdOK r) (id : Nat) : IdOK (markInvalid r id).1 := by
   have hframe : ∀ r' : Repo, r'.arena = r.arena → r'.branches = r.branches → IdOK r' := by
@@ -318,40 +324,37 @@ theorem idOK_markInvalid (r : Repo) (hf : ForestOK r) (hi : IdOK r) (id : Nat) :
     · intro bi hbi i d hd; rw [hbr] at hd ⊢; exact hi.complete bi (hb ▸ hbi) i d hd
     · intro bi hbi bj hbj i j d e hd he; rw [hbr] at hd he; exact hi.uniq bi (hb ▸ hbi) bj (hb ▸ hbj) i j d e hd he
   unfold markInvalid
-  split
-  · exact hi
-  · have hf1 : ForestOK (saveInvalid { r with invalid := r.invalid ++ [id] }) := forestOK_of_frame r _ hf rfl rfl
-    have hi1 : IdOK (saveInvalid { r with invalid := r.invalid ++ [id] }) := hframe _ rfl rfl
+  have hf1 : ForestOK (markRecord r id) := forestOK_markRecord r hf id
+  have hi1 : IdOK (markRecord r id) := hframe _ (markRecord_frame r id).1 (markRecord_frame r id).2.1
+  simp only
+  cases hfind : (markRecord r id).branchesFind id with
+  | none => exact hi1
+  | some x =>
+    obtain ⟨bi, h⟩ := x
     simp only
-    cases hfind : (saveInvalid { r with invalid := r.invalid ++ [id] }).branchesFind id with
-    | none => exact hi1
-    | some x =>
-      obtain ⟨bi, h⟩ := x
+    cases ht : trim (markRecord r id) bi h with
+    | error e => exact hi1
+    | ok r2 =>
       simp only
-      cases ht : trim (saveInvalid { r with invalid := r.invalid ++ [id] }) bi h with
-      | error e => exact hi1
-      | ok r2 =>
-        simp only
-        obtain ⟨hbim, _⟩ := found_holder _ hf1 id bi h hfind
-        have hi2 := trim_idOK _ hf1 hi1 bi hbim h r2 ht
-        cases longestOf r2.arena r2.branches with
-        | none => exact hi2
-        | some lg =>
-          have hbr : ∀ x, ({ r2 with longest := lg } : Repo).br x = r2.br x := fun x => rfl
-          exact ⟨fun bi' hb' i d hd => hi2.complete bi' hb' i d hd, fun a ha b hb i j d e hd he => hi2.uniq a ha b hb i j d e hd he⟩
+      obtain ⟨hbim, _⟩ := found_holder _ hf1 id bi h hfind
+      have hi2 := trim_idOK _ hf1 hi1 bi hbim h r2 ht
+      cases longestOf r2.arena r2.branches with
+      | none => exact hi2
+      | some lg =>
+        have hbr : ∀ x, ({ r2 with longest := lg } : Repo).br x = r2.br x := fun x => rfl
+        exact ⟨fun bi' hb' i d hd => hi2.complete bi' hb' i d hd, fun a ha b hb i j d e hd he => hi2.uniq a ha b hb i j d e hd he⟩
 
-/-- **a successful mark of a held header: afterwards no tracked branch holds it.** -/
-theorem markInvalid_excludes (r : Repo) (hf : ForestOK r) (hi : IdOK r) (id : Nat) (hnew : r.invalid.contains id = false)
+/-- **a successful mark: afterwards no tracked branch holds the header** — whether or not the hash was in the
+    invalid list before (the configured hashes get there on Load without a look at the branches). -/
+theorem markInvalid_excludes (r : Repo) (hf : ForestOK r) (hi : IdOK r) (id : Nat)
     (hs : (markInvalid r id).2 = none) :
     ∀ x ∈ (markInvalid r id).1.branches, ∀ (k : Nat) (y : HData), ((markInvalid r id).1.br x).headers[k]? = some y → y.hdr.id ≠ id := by
-  have hf1 : ForestOK (saveInvalid { r with invalid := r.invalid ++ [id] }) := forestOK_of_frame r _ hf rfl rfl
-  have hi1 : IdOK (saveInvalid { r with invalid := r.invalid ++ [id] }) := by
-    refine ⟨fun bi hbi i d hd => hi.complete bi hbi i d hd, fun a ha b hb i j d e hd he => hi.uniq a ha b hb i j d e hd he⟩
+  have hf1 : ForestOK (markRecord r id) := forestOK_markRecord r hf id
+  have hi1 : IdOK (markRecord r id) :=
+    idOK_of_frame' r _ hi (markRecord_frame r id).1 (markRecord_frame r id).2.1
   unfold markInvalid at hs ⊢
-  have hc : ¬ (r.invalid.contains id = true) := by rw [hnew]; simp
-  rw [if_neg hc] at hs ⊢
   dsimp only at hs ⊢
-  cases hfind : (saveInvalid { r with invalid := r.invalid ++ [id] }).branchesFind id with
+  cases hfind : (markRecord r id).branchesFind id with
   | none =>
     -- not held by any tracked branch
     intro x hx k y hy heq
@@ -362,7 +365,7 @@ theorem markInvalid_excludes (r : Repo) (hf : ForestOK r) (hi : IdOK r) (id : Na
     obtain ⟨bi, h⟩ := xx
     rw [hfind] at hs
     dsimp only at hs ⊢
-    cases ht : trim (saveInvalid { r with invalid := r.invalid ++ [id] }) bi h with
+    cases ht : trim (markRecord r id) bi h with
     | error e => rw [ht] at hs; cases hs
     | ok r2 =>
       rw [ht] at hs
@@ -415,10 +418,10 @@ theorem atHeight_mem_own (ar : Arena) (bs : List Nat) (hl : Linked ar bs) :
 /-- **after a successful mark the chain of no tracked branch passes through the marked header** — in
     particular not the reported best chain. -/
 theorem markInvalid_chain_excludes (r : Repo) (hf : ForestOK r) (hi : IdOK r) (id : Nat)
-    (hnew : r.invalid.contains id = false) (hs : (markInvalid r id).2 = none) :
+    (hs : (markInvalid r id).2 = none) :
     ∀ bi ∈ (markInvalid r id).1.branches, ∀ (h : Int) (d : HData), (markInvalid r id).1.at bi h = some d → d.hdr.id ≠ id := by
   have hf' := forestOK_markInvalid r hf id
-  have hex := markInvalid_excludes r hf hi id hnew hs
+  have hex := markInvalid_excludes r hf hi id hs
   intro bi hbi h d hd
   obtain ⟨x, hx, xb, hxb, hm⟩ := atHeight_mem_own _ _ hf'.linked bi hbi _ h d hd
   obtain ⟨k, hk⟩ := List.getElem?_of_mem hm
